@@ -943,6 +943,14 @@ def _helper_shrinks(ctx, fn, loop):
     """`while helper(coll): <body that does not grow coll>` where every possibly-true return of the (resolved) helper
     directly follows the removal of an element of the corresponding parameter, which the helper never grows"""
     test = loop.test
+    if isinstance(test, ast.Name) and ctx is not None:
+        # `while flag: flag = helper(coll)`: the flag is the helper's answer
+        sets = [st for st in ast.walk(loop) if isinstance(st, (ast.Assign, ast.AugAssign, ast.NamedExpr, ast.For))
+                and any(isinstance(t, ast.Name) and t.id == test.id and isinstance(t.ctx, ast.Store)
+                        for tt in (st.targets if isinstance(st, ast.Assign) else [st.target]) for t in ast.walk(tt))]
+        if len(sets) == 1 and isinstance(sets[0], ast.Assign) and sets[0] in loop.body and len(sets[0].targets) == 1 \
+                and isinstance(sets[0].targets[0], ast.Name) and isinstance(sets[0].value, ast.Call):
+            test = sets[0].value
     if not isinstance(test, ast.Call) or ctx is None:
         return None
     tg = [t for t in ctx.typer.of(fn).targets(test)]
@@ -1413,6 +1421,13 @@ def r01_4(ctx):
     for q in sorted(ctx.model.funcs):
         if q in g.callees(q):
             fn = ctx.model.funcs[q]
+            # a self-edge that exists only because a receiver of unknown type has a method of the same name is no
+            # recursion that can be judged (x.clean() inside clean())
+            inf_q = ctx.typer.of(fn)
+            kinds = {kind for node, kind, tg in inf_q.calls if isinstance(tg, list) and any(t.qname == q for t in tg)}
+            if kinds and kinds <= {"cha"}:
+                out.undecided(q, "a call on a receiver of unknown type may or may not be a recursive call", where=fn.where())
+                continue
             ok, txt = _recursion_decreases(fn)
             if not ok:
                 from verifkit import sizes
